@@ -2,6 +2,7 @@ import PsV.Driver.Common
 import PsV.Driver.C04
 import PsV.Driver.Eval
 import PsV.Driver.C17
+import PsV.Driver.C09
 open PsV.Driver
 
 def stateless (f : List String → String) : IO Unit := do
@@ -10,7 +11,8 @@ def stateless (f : List String → String) : IO Unit := do
 def drivers : List (String × IO Unit) :=
   [("C04", stateless C04.handle),
    ("EV", Eval.run),
-   ("C17", stateless C17.handle)]
+   ("C17", stateless C17.handle),
+   ("C09", C09.run)]
 
 def main (args : List String) : IO UInt32 := do
   match args with
